@@ -2,7 +2,7 @@
    Evaluated either by vm_compute inside coqc or by the OCaml program extracted from this file. *)
 From Coq Require Import ZArith List Bool String Ascii.
 From Coq.Strings Require Import Byte.
-From CP Require Import Core.Bytes Core.Result Core.Show Prim.Int Prim.Mpint Prim.Timestamp Base.Enum Base.Array Frame.LVFrame Frame.Units Frame.Entry Reader.Reader Spec.PL Spec.TlsSpec Spec.Ja3 Tls.Ja3Model Spec.KeyTag Spec.DnsSpec Dns.KeyTag Spec.SshSpec Ssh.Record Spec.OppSpec Opp.Rdp.
+From CP Require Import Core.Bytes Core.Result Core.Show Prim.Int Prim.Mpint Prim.Timestamp Base.Enum Base.Array Frame.LVFrame Frame.Units Frame.Entry Reader.Reader Spec.PL Spec.TlsSpec Spec.Ja3 Tls.Ja3Model Spec.KeyTag Spec.DnsSpec Dns.KeyTag Spec.SshSpec Ssh.Record Spec.OppSpec Opp.Rdp Text.Field.
 From CPGen Require Import Tables.
 Import ListNotations.
 Local Open Scope string_scope.
@@ -176,7 +176,49 @@ Definition show_kex (k : bytes * list (list bytes) * Z * Z) : string :=
   let '(cookie, ls, f, res) := k in
   hex_of_bytes cookie ++ " " ++ String.concat "|" (map show_names ls) ++ " " ++ string_of_Z f ++ " " ++ string_of_Z res.
 
+
+(* ---- text fields ---- *)
+Definition show_comp (c : comp) : string :=
+  hex_of_bytes (fst c) ++ ":" ++ match snd c with None => "-" | Some v => "v" ++ hex_of_bytes v end.
+Definition show_param (p : option bytes) : string := match p with None => "-" | Some r => "r" ++ hex_of_bytes r end.
+Definition field_schema (name : string) : option (byte * list fattr) :=
+  match find (fun t => String.eqb (fst t) name) field_schemas with
+  | Some (_, (sep, _, rows)) =>
+    match bytes_of_hex sep with
+    | [c] => Some (c, map (fun t => {| fa_canon := bytes_of_hex (fst (fst t));
+                                       fa_mode := (if snd (fst t) =? 1 then Insens else if snd (fst t) =? 2 then AnyName else Exact);
+                                       fa_required := snd t |}) rows)
+    | _ => None
+    end
+  | None => None
+  end.
+Definition text_cmd (ws : list string) : option string :=
+  match ws with
+  | ["nvl"; sep; h] =>
+      match bytes_of_hex sep with
+      | [c] => Some (show_result (show_list show_comp) (nvlist c (hex_or_empty h)))
+      | _ => Some "BADCMD"
+      end
+  | ["fvm"; cls; h] =>
+      match field_schema cls with
+      | Some (c, sch) => Some (show_result (fun r => show_list show_param (fst r) ++ " " ++ show_list show_comp (snd r))
+                                           (fvm c sch (hex_or_empty h)))
+      | None => Some "BADCMD"
+      end
+  | ["hline"; strict; h] =>
+      Some (show_result (fun r => hex_of_bytes (fst (fst r)) ++ " " ++ hex_of_bytes (snd (fst r)) ++ " n=" ++ string_of_Z (snd r))
+                        (if String.eqb strict "1" then
+                           (* the Server value class (FieldValueString) rejects an empty value; the field class reports InvalidValue *)
+                           match parsed_header_line (list_byte_of_string "server") (hex_or_empty h) with
+                           | Ok (_, [], _) => Err InvalidValue
+                           | r => r
+                           end
+                         else header_line false (hex_or_empty h)))
+  | _ => None
+  end.
+
 Definition run_words (ws : list string) : string :=
+  match text_cmd ws with Some r => r | None =>
   match ws with
   | ["tpktenc"; h] => show_opt (enc_tpkt (hex_or_empty h))
   | ["cotpenc"; code; dst; src; h] => show_opt (enc_cotp (z_of_string code) (z_of_string dst) (z_of_string src) (hex_or_empty h))
@@ -288,6 +330,6 @@ Definition run_words (ws : list string) : string :=
   | ["csshmpint"; z] => show_result hex_of_bytes (compose_ssh_mpint (z_of_string z))
   | ["psshmpint"; h] => show_result show_zn (parse_ssh_mpint (bytes_of_hex h) 0)
   | _ => "BADCMD"
-  end.
+  end end.
 
 Definition run_line (s : string) : string := run_words (words s).
